@@ -193,6 +193,13 @@ class Session:
         self.ex.lazy_forks = False
         Glue(self).install(FP)
 
+    def use_slowpath(self):
+        """tier 5: the decimal fallback runs for real; only the assertions come from glue.py"""
+        from .glue import Glue
+        g = Glue(self)
+        g.exact_overflow = True
+        g.install(FP)
+
     def use_float_contract(self):
         """replace fp.ParseJSONFloatPrefix by the harness contract vFloatStub"""
         from .executor import _TRANSFER
